@@ -562,13 +562,21 @@ class RunA:
             return None, None
         if len(buf) < len(fi.data):
             if fi.data[:len(buf)] != buf:
-                raise RuntimeError('harness: untainted buffer is not a '
-                                   'prefix of the expected frame')
+                return self.out_of_step(c)
             return fi, 'prefix'
         if buf[:len(fi.data)] != fi.data:
-            raise RuntimeError('harness: untainted buffer does not start '
-                               'with the expected frame')
+            return self.out_of_step(c)
         return fi, 'complete'
+
+    def out_of_step(self, c):
+        """The receiver's buffer no longer lines up with what was sent.  That
+        only happens after the library mis-sized something (a wrong consumed
+        count or a wrong peek) which the property in charge has flagged or
+        will flag; ground truth is off for the rest of this incarnation.  On
+        a correct tree the probe stays at 0 (the driver checks)."""
+        c.inc.tainted = True
+        self.probe('harness_out_of_step')
+        return None, None
 
     def check_prefix_outcome(self, c, fi, buf, status, val):
         """C07: a strict prefix of a valid frame must raise UME."""
